@@ -96,6 +96,21 @@ theorem c05_release_gives_back {s : Sys} (h : Reachable s) (t : Tid) (hpc : s.pc
   obtain ⟨h1, _, _, h4, h5, _⟩ := runCall_release (inv_reachable h) t hpc
   exact ⟨h1, h5, h4⟩
 
+/-- **Concurrency and reconfiguration together**: take any number of limiter objects (one per schema
+    generation: a type change, deletion or re-addition makes later requests use another object, a resize acts
+    on the same object) and any interleaving of atomic steps of any number of requests on the objects they
+    hold with any resizes. Every object is, at every instant, in a state reachable by its own schedule — so
+    all of the above holds for each of them — and if the limits configured for object `o` never exceed `M`,
+    never more than `M` requests admitted by `o` are unfinished. -/
+theorem c05_bound_every_limiter (maxOf : Nat → Nat) (es : List (Nat × Ev)) (o : Nat) :
+    Reachable ((Heap.run (Heap.init maxOf) es).objs o) ∧
+    ∀ M, maxOf o ≤ M → ResizesLe M (eventsOf o es) →
+      ((Heap.run (Heap.init maxOf) es).objs o).holders.length ≤ M := by
+  rw [heap_run_proj]
+  refine ⟨⟨maxOf o, eventsOf o es, rfl⟩, ?_⟩
+  intro M hM hr
+  exact bound_run (inv_init _) ⟨hM, fun t m h => by simp [init] at h⟩ (by simp [init]) _ hr
+
 /-! non-vacuity: two threads at limit 1, fully interleaved — one holds the slot, the other has overshot and
     is about to roll back (`count = 2 > max`, yet only one request is admitted); then the limit is raised
     and a third thread, which starts afterwards, is admitted as number 2. -/
